@@ -155,27 +155,30 @@ def binding_b(binp, sc, tier, v):
     quick = tier == "quick"
     rounds = 3 if quick else 12
     path, rep = record(binp, sc, "trace.ndjson", lib.seed(), rounds)
-    if rep["cases"] < 150 * rounds or rep["nontrivial"] < 1 or min(rep["extra"]["by_event"].get(a, 0) for a in ACTIONS) < 3:
-        raise lib.Inconclusive("server traces too thin: %s" % json.dumps(rep["extra"]))
     ev = lib.read_ndjson(path)
-    # sensitivity (§9): a corrupted field and a dropped event must be rejected
-    i = next(k for k, e in enumerate(ev) if e["name"] == "Kill" and e["obs"]["cancelled"])
-    bad = json.loads(json.dumps(ev))
-    bad[i]["obs"]["cancelled"] = []
-    j = next(k for k, e in enumerate(ev) if e["name"] == "BeginQuery" and k > 20)
-    bad2 = ev[:j] + ev[j + 1:]
-    lib.write_ndjson(os.path.join(sc, "bad1.ndjson"), bad)
-    lib.write_ndjson(os.path.join(sc, "bad2.ndjson"), bad2)
+    if len(ev) < 20:
+        raise lib.Inconclusive("server traces empty: %s" % json.dumps(rep["extra"]))
+    futs = {}
     with ThreadPoolExecutor(max_workers=3) as ex:
-        f0 = ex.submit(validate_trace, path)
+        futs["trace"] = ex.submit(validate_trace, path)
         if not quick:
-            f1 = ex.submit(validate_trace, os.path.join(sc, "bad1.ndjson"))
-            f2 = ex.submit(validate_trace, os.path.join(sc, "bad2.ndjson"))
-        ok, at, exp, r = f0.result()
-        b1, b2 = (f1.result(), f2.result()) if not quick else ((False, i + 1), (False, j + 1))
-    if b1[0] or b1[1] != i + 1 or b2[0] or b2[1] not in (j + 1, j + 2):
-        raise lib.Inconclusive("trace self-test: corrupted traces not rejected where expected (%s at %s, wanted %d; %s at %s, wanted %d)"
-                               % (b1[0], b1[1], i + 1, b2[0], b2[1], j + 1))
+            # sensitivity (§9): a corrupted field and a dropped event must be rejected where they are
+            i = next((k for k, e in enumerate(ev) if e["name"] == "Kill" and e["obs"]["cancelled"]), None)
+            j = next((k for k, e in enumerate(ev) if e["name"] == "BeginQuery" and k > 20), None)
+            if i is None or j is None:
+                raise lib.Inconclusive("server traces too thin for the self-test: %s" % json.dumps(rep["extra"]))
+            bad = json.loads(json.dumps(ev))
+            bad[i]["obs"]["cancelled"] = []
+            lib.write_ndjson(os.path.join(sc, "bad1.ndjson"), bad)
+            lib.write_ndjson(os.path.join(sc, "bad2.ndjson"), ev[:j] + ev[j + 1:])
+            futs["bad1"] = ex.submit(validate_trace, os.path.join(sc, "bad1.ndjson"))
+            futs["bad2"] = ex.submit(validate_trace, os.path.join(sc, "bad2.ndjson"))
+        ok, at, exp, r = futs["trace"].result()
+        if not quick:
+            b1, b2 = futs["bad1"].result(), futs["bad2"].result()
+            if ok and (b1[0] or b1[1] != i + 1 or b2[0] or b2[1] not in (j + 1, j + 2)):
+                raise lib.Inconclusive("trace self-test: corrupted traces not rejected where expected (%s at %s, wanted %d; %s at %s, wanted %d)"
+                                       % (b1[0], b1[1], i + 1, b2[0], b2[1], j + 1))
     info = {"server_traces": rep["extra"]["traces"], "server_events": rep["cases"], "server_events_by_kind": rep["extra"]["by_event"],
             "server_kills_hitting_a_running_context": rep["nontrivial"], "server_scenario_outcomes": rep["extra"]["scenario_outcomes"],
             "server_trace_sample": rep["samples"][:1], "trace_validation_wall_s": round(r.wall, 1), "trace_accepted": ok}
@@ -190,6 +193,11 @@ def binding_b(binp, sc, tier, v):
         if second["signature"] != first["signature"]:
             raise lib.Inconclusive("server traces rejected in two different ways: %s / %s" % (first["signature"], second["signature"]))
         v.add(first["signature"], first)
+        return info
+    # accepted: it only counts if the traces were not vacuous
+    if (rep["cases"] < 150 * rounds or rep["nontrivial"] < 1 or rep["extra"]["scenario_outcomes"].get("aborted")
+            or min(rep["extra"]["by_event"].get(a, 0) for a in ACTIONS) < 3):
+        raise lib.Inconclusive("server traces too thin: %s" % json.dumps(rep["extra"]))
     return info
 
 
